@@ -37,8 +37,8 @@ MANIFEST_ENTRY = {
         "document comparison. Trusted: Lean kernel, harness incl. its XML-patch applier, driver, shims."),
     "technique": "Lean 4 proof (slice characterisation, strict monotonicity of starts, loop cover/minimality lemmas) + source-to-Lean translation re-proved equal to the model each run + model/implementation correspondence",
 }
-PROP_FILES = ["DashLive/Props/C09.lean", "DashLive/Props/GenTie.lean", "DashLive/Props/GenTieTimeline.lean", "DashLive/Props/Generated.lean"]
-LEAN_TARGETS = ["DashLive.Props.C09", "DashLive.Props.GenTie", "DashLive.Props.GenTieTimeline", "DashLive.Props.Generated"]
+PROP_FILES = ["DashLive/Props/C09.lean", "DashLive/Props/GenTie.lean", "DashLive/Props/GenTieTimeline.lean", "DashLive/Props/Generated.lean", "DashLive/Props/GenTieLiveTiming.lean"]
+LEAN_TARGETS = ["DashLive.Props.C09", "DashLive.Props.GenTie", "DashLive.Props.GenTieTimeline", "DashLive.Props.Generated", "DashLive.Props.GenTieLiveTiming"]
 
 
 def _gen_arith():
@@ -50,6 +50,8 @@ def _gen_arith():
     gen_timeline.main()
     import gen_liveindex
     gen_liveindex.main()
+    import gen_livetiming          # C08's translation of DashTiming (window_from_timing uses that model)
+    gen_livetiming.main()
 
 
 GENERATORS = [_gen_arith]
@@ -145,7 +147,8 @@ def doc_line(root):
     return f"{hx(root.get('id') or '')}|{pub}|{hx(' '.join(loc) if loc else '')}|{'#'.join(tls) or '-'}"
 
 
-def gen_pairs(ctx, rng, count):
+def gen_pairs(ctx, rng, count, ref=None):
+    """`ref`: stream -> duration of its timing reference in seconds (for the loop-edge clock phases)"""
     out = []
     templates = ["hand_made.mpd", "manifest_a.mpd", "manifest_n.mpd", "hand_made.mpd"]
     for i in range(count):
@@ -190,6 +193,19 @@ def gen_pairs(ctx, rng, count):
                 opts["start"] = st_.strftime("%Y-%m-%dT%H:%M:%SZ")
         else:
             opts["start"] = start
+        if ref and i % 8 == 3:
+            # clock phase at a loop boundary of the source: the time-shift window starts within the last
+            # moments of a loop (where the segment search walks past the last segment and wraps), for any
+            # number of completed loops; T2 is a little later, across the boundary or still before it
+            R = ref[stream]
+            eps = rng.choice([0.04, 0.3, 0.8, 1.5, 2.5])
+            loops = rng.choice([0, 1, 2, 7, 1000, 54321])
+            ast_ = (t1 - datetime.timedelta(seconds=rng.randrange(10 ** 6))).replace(microsecond=0)
+            t1 = ast_ + datetime.timedelta(seconds=depth) + datetime.timedelta(seconds=float(R)) * (loops + 1) \
+                - datetime.timedelta(seconds=eps)
+            delta = datetime.timedelta(seconds=rng.choice([0.01, eps / 2, eps + 0.2, 2, 5, float(R)]))
+            kind = "loopedge"
+            opts["start"] = ast_.strftime("%Y-%m-%dT%H:%M:%SZ")
         if i % 16 == 5:
             # a symbolic start that rolls over between the two requests (ledger: publishTime may step back)
             day = datetime.datetime(t1.year, t1.month, max(2, t1.day), tzinfo=datetime.timezone.utc)
@@ -225,7 +241,7 @@ def ch_pair(ctx) -> Channel:
     ch = Channel("manifest_pair", rule=(
         "pairs of live manifests (timeline-capable templates x streams bbb, tears, syn1, syn2 x depth/mup/patch "
         "x start=epoch|year|month|today|explicit) at T1 and T2 = T1 + delta, delta from 1 ms to days (sub-segment, "
-        "one/many update periods, across a loop of the source, a day boundary, the patch ttl); per pair: model "
+        "one/many update periods, across a loop of the source, a day boundary, the patch ttl; every 8th pair has its window start within the last moments of a source loop, after 0..54321 completed loops); per pair: model "
         "timelines vs rendered S lists, shared-entry agreement, forward-moving window, publishTime/AST monotone, "
         "and (patch=1) the real patch applied to the T1 document vs the T2 document; non-trivial = windows "
         "overlap partially or a patch was applied; distinct by (url, T1, T2)"))
@@ -235,7 +251,11 @@ def ch_pair(ctx) -> Channel:
     lines, recs = [], []
     plines, precs = [], []
     with appboot.Clock("2023-01-01T00:00:00Z") as clock:
-        for stream, url, t1, t2, kind, opts, defaults in gen_pairs(ctx, rng, ctx.scale(48, 2000)):
+        ref = {}
+        for st_ in ("bbb", "tears", "syn1", "syn2", "syn3", "syn4"):
+            t0 = next(iter(segchecks.tracks(app, st_).values()))
+            ref[st_] = t0.ref_dur / t0.ref_ts
+        for stream, url, t1, t2, kind, opts, defaults in gen_pairs(ctx, rng, ctx.scale(48, 2000), ref):
             ch.evaluations += 1
             ch.count(f"delta:{kind}")
             set_stream_defaults(app, stream, defaults)
